@@ -4,7 +4,7 @@ obligation.  This check re-runs the symbolic executions of the other properties'
 obligations (and the path-coverage obligations that make them meaningful)."""
 import importlib
 
-SOURCES = ['c01', 'c02', 'c07', 'c13', 'c14', 'c08']      # c02 includes the evaluator arms
+SOURCES = ['c01', 'c02', 'c07', 'c13', 'c14', 'c08', 'c11', 'c16']      # c02 includes the evaluator arms and the wildcard matcher
 
 
 def run(ctx):
@@ -18,7 +18,7 @@ def run(ctx):
         for name, fn in mod.families(ctx):
             n += 1
             ctx.guarded(f'{m.upper()}:{name}', fn)
-    ctx.bounds += ['full input space of each encoded kernel under its stated precondition (see the evidence of C01/C02/C07/C08/C13/C14 for the preconditions)']
+    ctx.bounds += ['full input space of each encoded kernel under its stated precondition (see the evidence of C01/C02/C07/C08/C11/C13/C14/C16 for the preconditions)']
     ctx.assumptions += ['only the kernels listed in functions_encoded; parsers, error rendering, JSON/protobuf/FFI entry points and deep-nesting limits - most of C20 - are NOT covered',
                         'panics inside stubbed callees are not visible; modelled std functions panic exactly where std documents (unwrap/expect on None/Err, abs/rem_euclid overflow)']
     return ctx.finish('Solver-decided panic-freedom of the cedar-policy-core kernels encoded by engine M (narrow slice of C20): for each kernel, the disjunction of the path conditions of all panicking paths '
